@@ -686,3 +686,206 @@ func InLoop(in ssa.Instruction) bool {
 	}
 	return false
 }
+
+// ---- helper-aware queries ------------------------------------------------------------------
+//
+// Maintainers split functions.  A rule that says "F does X" usually means "F, or a helper F
+// calls, does X".  The functions below look through static calls to module functions (never
+// through go statements), to a small depth, and relate what they find back to the call in F.
+
+// DeepInstr is an instruction found in fn or in a helper reached from fn; Top is the
+// instruction of fn itself that leads to it (the instruction itself when depth 0), Path the
+// chain of call instructions from fn down to it.
+type DeepInstr struct {
+	In   ssa.Instruction
+	Top  ssa.Instruction
+	Path []ssa.Instruction
+}
+
+func isModuleFn(f *ssa.Function) bool {
+	if f == nil || f.Blocks == nil {
+		return false
+	}
+	pk := fnPkg(f)
+	return pk != nil && strings.HasPrefix(pk.Path(), modPath)
+}
+
+// InstrsDeep visits the instructions of fn and of the module helpers it calls statically
+// (depth levels down, each helper once per call site chain, recursion cut).
+func InstrsDeep(fn *ssa.Function, depth int, visit func(DeepInstr)) {
+	var walk func(f *ssa.Function, path []ssa.Instruction, onStack map[*ssa.Function]bool)
+	walk = func(f *ssa.Function, path []ssa.Instruction, onStack map[*ssa.Function]bool) {
+		Instrs(f, func(in ssa.Instruction) {
+			top := in
+			if len(path) > 0 {
+				top = path[0]
+			}
+			visit(DeepInstr{In: in, Top: top, Path: path})
+			if len(path) >= depth {
+				return
+			}
+			if _, isGo := in.(*ssa.Go); isGo {
+				return
+			}
+			cc := CallOf(in)
+			if cc == nil {
+				return
+			}
+			callee := cc.StaticCallee()
+			if !isModuleFn(callee) || onStack[callee] {
+				return
+			}
+			onStack[callee] = true
+			np := append(append([]ssa.Instruction{}, path...), in)
+			walk(callee, np, onStack)
+			delete(onStack, callee)
+		})
+	}
+	walk(fn, nil, map[*ssa.Function]bool{fn: true})
+}
+
+// alwaysExecutes: the instruction runs on every path through its function from entry to a
+// normal return (its block dominates every returning block).
+func alwaysExecutes(in ssa.Instruction) bool {
+	f := in.Parent()
+	ok := true
+	for _, b := range f.Blocks {
+		if len(b.Instrs) == 0 {
+			continue
+		}
+		if _, isRet := b.Instrs[len(b.Instrs)-1].(*ssa.Return); isRet {
+			if !(in.Block() == b || in.Block().Dominates(b)) {
+				ok = false
+			}
+		}
+	}
+	return ok
+}
+
+// DeepDominates: a executes before b on every path to b, where a and b may sit in helpers of
+// the same root function: compared at the first level where their call paths differ; an event
+// inside a helper counts only if it always executes in that helper (and in the helpers between).
+func DeepDominates(a, b DeepInstr) bool {
+	pa := append(append([]ssa.Instruction{}, a.Path...), a.In)
+	pb := append(append([]ssa.Instruction{}, b.Path...), b.In)
+	k := 0
+	for k < len(pa)-1 && k < len(pb)-1 && pa[k] == pb[k] {
+		k++
+	}
+	if pa[k] == pb[k] {
+		return false
+	}
+	if !InstrDominates(pa[k], pb[k]) {
+		return false
+	}
+	// everything of a below level k must be unconditional inside its helper
+	for i := k + 1; i < len(pa); i++ {
+		if !alwaysExecutes(pa[i]) {
+			return false
+		}
+	}
+	return true
+}
+
+// DeepReaches: b can execute after a (same comparison level as DeepDominates).
+func DeepReaches(a, b DeepInstr) bool {
+	pa := append(append([]ssa.Instruction{}, a.Path...), a.In)
+	pb := append(append([]ssa.Instruction{}, b.Path...), b.In)
+	k := 0
+	for k < len(pa)-1 && k < len(pb)-1 && pa[k] == pb[k] {
+		k++
+	}
+	if pa[k] == pb[k] {
+		return false
+	}
+	return InstrReaches(pa[k], pb[k])
+}
+
+// ArgForParam: for an instruction path into a helper, the value in the caller that the
+// helper's parameter stands for (followed up the whole path).
+func ArgForParam(path []ssa.Instruction, v ssa.Value) ssa.Value {
+	for i := len(path) - 1; i >= 0; i-- {
+		prm, ok := v.(*ssa.Parameter)
+		if !ok {
+			return v
+		}
+		cc := CallOf(path[i])
+		callee := cc.StaticCallee()
+		if callee == nil {
+			return v
+		}
+		idx := -1
+		for j, q := range callee.Params {
+			if q == prm {
+				idx = j
+			}
+		}
+		if idx < 0 || idx >= len(cc.Args) {
+			return v
+		}
+		v = cc.Args[idx]
+	}
+	return v
+}
+
+// DeepFuncs: fn and the module helpers it calls statically (depth levels down), each once.
+func DeepFuncs(fn *ssa.Function, depth int) []*ssa.Function {
+	out := []*ssa.Function{fn}
+	seen := map[*ssa.Function]bool{fn: true}
+	InstrsDeep(fn, depth, func(d DeepInstr) {
+		f := d.In.Parent()
+		if !seen[f] {
+			seen[f] = true
+			out = append(out, f)
+		}
+	})
+	return out
+}
+
+// FindDeep: the instructions of fn and of the module helpers it calls (depth levels) that satisfy pred.
+func FindDeep(fn *ssa.Function, depth int, pred func(ssa.Instruction) bool) []DeepInstr {
+	var out []DeepInstr
+	InstrsDeep(fn, depth, func(d DeepInstr) {
+		if pred(d.In) {
+			out = append(out, d)
+		}
+	})
+	return out
+}
+
+// MustPass widens an event predicate for must-pass-through rules: an instruction counts when it is
+// the event itself or a plain call of a module helper every one of whose paths from entry to a
+// return passes the event (helpers of helpers down to depth levels).
+func MustPass(pred func(ssa.Instruction) bool, depth int) func(ssa.Instruction) bool {
+	memo := map[*ssa.Function]int{} // 1 = always passes, 2 = not
+	var widened func(d int) func(ssa.Instruction) bool
+	widened = func(d int) func(ssa.Instruction) bool {
+		return func(in ssa.Instruction) bool {
+			if pred(in) {
+				return true
+			}
+			if d <= 0 {
+				return false
+			}
+			call, ok := in.(*ssa.Call)
+			if !ok {
+				return false
+			}
+			callee := call.Call.StaticCallee()
+			if !isModuleFn(callee) {
+				return false
+			}
+			if v, had := memo[callee]; had {
+				return v == 1
+			}
+			memo[callee] = 2 // recursion: assume not
+			miss := ReachAvoiding(callee, nil, widened(d-1), isReturn)
+			if len(miss) == 0 {
+				memo[callee] = 1
+				return true
+			}
+			return false
+		}
+	}
+	return widened(depth)
+}
